@@ -99,6 +99,41 @@ pub fn check_values(code: u16, vals: &[Val]) -> Vec<Finding> {
             },
         },
     }
+    // (b'') writers that take only part of what they are offered (per write call, and in a
+    // gathered write): the same bytes as the vector build
+    {
+        let r = guarded(|| -> Result<Vec<(String, String)>, String> {
+            let l = to_lib(&p)?;
+            let want = l.build_bytes_vec().map_err(|e| format!("{:?}", e))?;
+            let mut bad = Vec::new();
+            for n in [1usize, 15] {
+                let mut w = crate::engine::Drip::new(n);
+                let res = l.write_to(&mut w);
+                let got = w.buf.into_inner();
+                if res.is_err() || got != want {
+                    bad.push(("drip-writer".to_string(), format!("a writer accepting {} bytes per call: result {:?}, {} bytes written, the vector build has {}; first difference at {:?}", n, res.map_err(|e| format!("{:?}", e)), got.len(), want.len(), got.iter().zip(want.iter()).position(|(a, b)| a != b))));
+                }
+            }
+            for n in [5usize, 21] {
+                let mut w = crate::engine::Gather::new(n);
+                let res = l.write_to(&mut w);
+                let got = w.buf.into_inner();
+                if res.is_err() || got != want {
+                    bad.push(("gather-writer".to_string(), format!("a writer with a gathered write limited to {} bytes per call: result {:?}, {} bytes written, the vector build has {}; first difference at {:?}", n, res.map_err(|e| format!("{:?}", e)), got.len(), want.len(), got.iter().zip(want.iter()).position(|(a, b)| a != b))));
+                }
+            }
+            Ok(bad)
+        });
+        match r {
+            Err(pn) => out.push(finding(format!("C10|{}|writer|{}", mn, pn.sig()), format!("{:?}", pn), case.clone())),
+            Ok(Err(_)) => {}
+            Ok(Ok(bad)) => {
+                for (t, d) in bad {
+                    out.push(finding(format!("C10|{}|build|{}", mn, t), d, case.clone()));
+                }
+            }
+        }
+    }
     // (b') the compressing serialiser must carry the same fields in the same order
     let r = guarded(|| to_lib(&p).and_then(|l| l.build_bytes_vec_compressed().map_err(|e| format!("{:?}", e))));
     match r {
